@@ -140,8 +140,8 @@ TextClauses(pfx, s, t, paths, stmt) ==
             Cl(pfx \o "OutsideLines", OutsideLines(s, t, start, end, stmt)) }
 
 (* ------------------------------------------------------------------------ *)
-VARIABLES tid, l, st, bad, seen, nEv, nUniq, allValid, fits
-vars == <<tid, l, st, bad, seen, nEv, nUniq, allValid, fits>>
+VARIABLES tid, l, st, bad, seen, nEv, nUniq, allValid, fits, run, pstill
+vars == <<tid, l, st, bad, seen, nEv, nUniq, allValid, fits, run, pstill>>
 
 Tr       == Traces[tid]
 Steps(t) == Traces[t].steps
@@ -154,10 +154,22 @@ IsStmtAt(root, p) == TKindCat(Kind(NodeAt(root, p))) = "stmt"
 KEvent(s, e) == [T |-> Tr.T, M |-> ResM(s.liveS, <<e.m>>), nested |-> FALSE, Sel |-> {1}, docstr |-> Cfg.docstr]
 EventFits(s, e) == Sync(s) /\ CaseFits(KEvent(s, e), s.liveS)
 
+(* loop: "after each match is substituted check if it still matches the pattern, and if so substitute again,   *)
+(* up to `loop` times" - per LOCATION: a run of events (first + loop continuations) ends only when its budget  *)
+(* is used up or the new node no longer matches (`still` = replaced.match(pat), the question subn() itself asks) *)
+RunNow(e) == IF e.loopcont THEN run + 1 ELSE 1
+LastOfRun(i) == LET nx == Steps(tid)[i + 1] IN nx.k # "subst" \/ ~nx.loopcont
+NextOk(i)    == LET nx == Steps(tid)[i + 1] IN nx.k = "subst" \/ nx.outcome = "ok"
+LoopClauses(e) ==
+  (IF e.loopcont THEN {Cl("Loop.Bounded", Cfg.loop > 0 /\ run < Cfg.loop /\ pstill)} ELSE {})
+  \cup (IF Cfg.loop > 0 /\ l < Len(Steps(tid)) /\ LastOfRun(l) /\ NextOk(l)
+        THEN {Cl("Loop.Complete", e.still => RunNow(e) = Cfg.loop)} ELSE {})
+
 SubstClauses(s, e) ==     \* s = state after the previous step, e.pre = state observed when the callback fired
   LET t == e.post  q == e.pre  K == KEvent(q, e) IN
   { Cl("Event.Chain", q.liveP = s.liveP /\ q.lines = s.lines),
     Cl("Event.MatchedNode", e.matchedOk) }
+  \cup LoopClauses(e)
   \cup (IF EventFits(q, e) /\ e.matchedOk
         THEN { Cl("Event.TemplateRel", G!TemplateRel(K, q.liveS, t.liveS)) }
              \cup (IF e.hasRef THEN {Cl("Event.RefAgree", G!TemplateRel(K, q.liveS, e.expS))} ELSE {})
@@ -257,7 +269,7 @@ Init == /\ tid \in 1..Len(Traces)
         /\ l = 1
         /\ st = Traces[tid].init
         /\ bad = {} /\ seen = {}
-        /\ nEv = 0 /\ nUniq = 0 /\ allValid = TRUE /\ fits = TRUE
+        /\ nEv = 0 /\ nUniq = 0 /\ allValid = TRUE /\ fits = TRUE /\ run = 0 /\ pstill = FALSE
 
 Next == /\ l <= Len(Steps(tid))
         /\ LET e == Steps(tid)[l]
@@ -269,6 +281,8 @@ Next == /\ l <= Len(Steps(tid))
               /\ nUniq' = nUniq + (IF e.k = "subst" /\ ~e.loopcont THEN 1 ELSE 0)
               /\ allValid' = (allValid /\ (e.k = "subst" => e.hasRef /\ e.expValid))
               /\ fits' = (fits /\ (e.k = "subst" => EventFits(e.pre, e)))
+              /\ run' = (IF e.k = "subst" THEN RunNow(e) ELSE 0)
+              /\ pstill' = (e.k = "subst" /\ e.still)
         /\ l' = l + 1
         /\ UNCHANGED tid
 
